@@ -287,6 +287,17 @@ theorem pager_presents_every_character_body (seg : List Pager.Ch → List (List 
   · rw [hrow]
     simpa using hcell
 
+/-- The hypothesis "characters at least one column wide" of `pager_presents_every_character_body` cannot be dropped: a
+    zero-width grapheme (`vaxis.Characters` yields them for a lone `\r`, ESC, NUL, U+200B, U+00AD, a leading combining mark) does
+    not advance the column, so the next character is written into the same cell — the executed `Draw` of "a", ZWSP, "b" in a
+    3-column window shows `a b` in columns 0 and 1 and the zero-width character in no cell.  (It has no cell of its own by
+    definition, nothing visible is lost; recorded as the reason for the hypothesis, not as a finding.) -/
+theorem pager_zero_width_shares_cell :
+    (runPager genB genB.pagerDraw [[⟨[97], 1⟩, ⟨[226, 128, 139], 0⟩, ⟨[98], 1⟩]]
+      ⟨[⟨[97], 1⟩, ⟨[226, 128, 139], 0⟩, ⟨[98], 1⟩], [], 0, 0⟩ 3 1 true).map (·.2) =
+      some [[some ⟨[97], 1⟩, some ⟨[98], 1⟩, none]] := by
+  decide +kernel
+
 /-- Non-vacuity of the hypotheses of `pager_presents_every_character_body`: the one-segment segmentation; the text
     "ab\ncd" at width 3 has the second line "cd" whose character 1 is `d`. -/
 example : ∀ t : List Pager.Ch, ((fun t => [t]) t).flatten = t := by intro t; simp
